@@ -169,7 +169,9 @@ def runCase : CaseFn := fun c => Id.run do
           -- subscriber is served from the final state and nothing is delivered afterwards
           let po := backlog st h
           let mres := if po.res == .ok then "ok" else "err"
-          if d.pseen != o.ntf.length || mres != d.pres || (mres == "ok" && (po.best != d.pbest || po.bl != d.pbl)) then
+          -- (how many notifications the sink had RECORDED at that moment is not compared: the last
+          -- one may still be in the sink's hands; the backlog itself is determined)
+          if mres != d.pres || (mres == "ok" && (po.best != d.pbest || po.bl != d.pbl)) then
             out := out.push s!"DIFF C19 case {c.num} line {ln}: {op}: backlog after the handlers returned model={mres} {po.best} {repr po.bl} taken={o.ntf.length} impl={d.pres} {d.pbest} {repr d.pbl} taken={d.pseen}"
             diverged := true
     else
